@@ -29,6 +29,9 @@ impl Same for Plain { fn same(&self, o: &Self) -> bool { self.id == o.id && self
 #[derive(Debug, Clone, PartialEq, ElixirStruct)]
 #[elixir_module = "MyApp.Item"]
 struct Item { count: i64, label: String, maybe: Option<i32>, list: Vec<u8> }
+#[derive(Debug, Clone, PartialEq, Serialize, Deserialize)]
+struct Holder { items: Option<Vec<i32>>, names: Option<Vec<String>>, map: Option<BTreeMap<i64, String>> }
+impl Same for Holder { fn same(&self, o: &Self) -> bool { self == o } }
 impl Same for Item { fn same(&self, o: &Self) -> bool { self == o } }
 
 #[derive(Serialize, Deserialize, Debug, Clone, PartialEq)]
@@ -78,7 +81,7 @@ fn strings() -> Vec<String> { vec!["".into(), "a".into(), "héllo wörld €".in
 fn main() {
     let args: Vec<String> = std::env::args().collect();
     if args.get(1).map(|s| s.as_str()) != Some("c15") { eprintln!("usage: serdemc c15"); std::process::exit(2); }
-    let rep = Report::new("C15", "exploration");
+    let code = vcore::report::run_guarded("C15", "exploration", |rep| {
     let thorough = rep.thorough();
     // ---- integers: small widths over their whole range, wide ones at every power of two
     (i8::MIN..=i8::MAX).into_par_iter().for_each(|v| { check(&rep, "i8", &v); check(&rep, "Option<i8>", &Some(v)); });
@@ -161,6 +164,26 @@ fn main() {
     check(&rep, "BTreeMap<i64,Option<f64>>", &BTreeMap::from([(i64::MIN, Some(1.5)), (0, None), (i64::MAX, Some(-0.0))]));
     check(&rep, "Option<Vec<String>>", &Some(vec!["x".to_string()]));
     check(&rep, "Option<(i32,i32)>", &Some((1, 2)));
+    // options around empty and zero-like values: Some(empty) must not come back as None
+    check(&rep, "Option<Vec<i32>> Some(empty)", &Some(Vec::<i32>::new()));
+    check(&rep, "Option<Vec<i32>> Some([0])", &Some(vec![0i32]));
+    check(&rep, "Option<Vec<String>> Some(empty)", &Some(Vec::<String>::new()));
+    check(&rep, "Option<Vec<u8>> Some(empty)", &Some(Vec::<u8>::new()));
+    check(&rep, "Option<Vec<Vec<i32>>> Some([[]])", &Some(vec![Vec::<i32>::new()]));
+    check(&rep, "Option<String> Some(empty)", &Some(String::new()));
+    check(&rep, "Option<HashMap<String,i32>> Some(empty)", &Some(HashMap::<String, i32>::new()));
+    check(&rep, "Option<BTreeMap<i64,String>> Some(empty)", &Some(BTreeMap::<i64, String>::new()));
+    check(&rep, "Option<i64> Some(0)", &Some(0i64));
+    check(&rep, "Option<f64> Some(0.0)", &Some(0.0f64));
+    check(&rep, "Option<char> Some(NUL)", &Some('\0'));
+    check(&rep, "Vec<Option<Vec<i32>>>", &vec![Some(vec![]), None, Some(vec![1])]);
+    check(&rep, "(Option<Vec<i32>>,Option<String>)", &(Some(Vec::<i32>::new()), Some(String::new())));
+    check(&rep, "HashMap<String,Option<Vec<i32>>>", &HashMap::from([("a".to_string(), Some(Vec::<i32>::new())), ("b".to_string(), None)]));
+    check(&rep, "Plain{tags: empty, opt: Some(0)}", &Plain { id: 0, name: "".into(), ratio: 0.0, flag: false, tags: vec![], opt: Some(0) });
+    check(&rep, "Item{list: empty, maybe: Some(0)}", &Item { count: 0, label: "".into(), maybe: Some(0), list: vec![] });
+    check(&rep, "Holder{items: Some(empty)}", &Holder { items: Some(vec![]), names: Some(vec![]), map: Some(BTreeMap::new()) });
+    check(&rep, "Holder{items: None}", &Holder { items: None, names: Some(vec!["".into()]), map: None });
+    check(&rep, "Shape::Rec{h: Some(0)}", &Shape::Rec { w: 0, h: Some(0) });
     for sh in [Shape::Unit, Shape::Other, Shape::New(-1), Shape::Tup(0, "".into()), Shape::Rec { w: 0, h: None }, Shape::Rec { w: u64::MAX, h: Some(i8::MIN) }] {
         check(&rep, "Shape", &sh); check(&rep, "Vec<Shape>", &vec![sh.clone(), Shape::Unit]); check(&rep, "Option<Shape>", &Some(sh.clone())); check(&rep, "HashMap<String,Shape>", &HashMap::from([("s".to_string(), sh.clone())]));
     }
@@ -169,12 +192,13 @@ fn main() {
     rep.sample(json!({"type": "i64", "values": "all +-(2^k + {-1,0,1}), k = 1..62, and the extremes"}));
     rep.sample(json!({"type": "Plain{id:i64,...}", "value": "Plain { id: 1099511627776, name: \"n\", ratio: 0.5, flag: true, tags: [1, 65535], opt: Some(7) }"}));
     rep.sample(json!({"type": "char", "values": if thorough { "all 1 112 064 scalar values" } else { "all below U+0800 and every plane boundary" }}));
-    let code = rep.finish(json!({
+    json!({
         "evaluations": rep.get("evaluations"),
         "distinct_nontrivial": rep.get("evaluations"),
         "rule": "monomorphised family: i8/u8/i16/u16 over their entire range, i32/u32/i64/u64 at every power of two +-1 (and 65 536 further 32-bit values), chars (every plane boundary; all scalar values in thorough), f32 (boundary set; all 2^32 bit patterns in thorough), f64 boundary set, 9 strings, and Option/Vec/tuples/HashMap<String,_>/BTreeMap<i64,_>/named struct/ElixirStruct derive/newtype/tuple struct/four enum variant shapes wrapped around them; each value through to_term/from_term and to_bytes/from_bytes; every generated (type, value) is distinct",
         "exhaustive": true,
         "feature_set": "default features (elixir-interop off)",
-    }));
+    })
+    });
     std::process::exit(code);
 }
